@@ -468,7 +468,7 @@ class OrderInterp:
                     ix = kw.get("index", e.args[1] if len(e.args) > 1 else None)
                     if ix is not None and self.tag(e.args[0]).kind in ("rows", "sorted", "top") and self.tag(ix).kind in ("rows", "sorted", "top"):
                         self.site("pairing", "Series(values, index=...)", e, [e.args[0], ix])
-                if name in ("Series", "array", "asarray", "isnan", "where", "abs", "round", "floor", "ceil", "sign", "unique_keep"):
+                if name in ("Series", "Index", "array", "asarray", "isnan", "where", "abs", "round", "floor", "ceil", "sign", "unique_keep"):
                     for t in argtags:
                         if t.kind in ("rows", "sorted", "grouped"):
                             return t
@@ -486,6 +486,22 @@ class OrderInterp:
                 if name in ("append", "concatenate", "hstack") and e.args:
                     # np.append(column, extras): the column's rows plus order-free extras — like pd.concat([column, extras])
                     parts = list(e.args[0].elts) if name != "append" and isinstance(e.args[0], (ast.List, ast.Tuple)) else list(e.args[:2])
+                    # sorted insertion: concatenate([X[:k], [v], X[k:]]) with k = searchsorted(X, v): X with v put in at its place —
+                    # what sorting "X plus v" gives, when X is sorted
+                    if name != "append" and len(parts) == 3 and all(isinstance(x, ast.Subscript) and isinstance(x.slice, ast.Slice) for x in (parts[0], parts[2])) and \
+                            self.txt(parts[0].value) == self.txt(parts[2].value) and parts[0].slice.lower is None and parts[2].slice.upper is None and \
+                            parts[0].slice.upper is not None and parts[2].slice.lower is not None and \
+                            self.txt(parts[0].slice.upper) == self.txt(parts[2].slice.lower) and isinstance(parts[0].slice.upper, ast.Name):
+                        kname = parts[0].slice.upper.id
+                        xname = self.txt(parts[0].value)
+                        kdefs = [n.value for n in ast.walk(self.fn.node) if isinstance(n, ast.Assign) and len(n.targets) == 1 and
+                                 isinstance(n.targets[0], ast.Name) and n.targets[0].id == kname]
+                        if len(kdefs) == 1 and isinstance(kdefs[0], ast.Call) and isinstance(kdefs[0].func, ast.Attribute) and \
+                                kdefs[0].func.attr in ("searchsorted", "bisect_left", "bisect_right", "bisect") and kdefs[0].args and \
+                                self.txt(kdefs[0].args[0]) == xname:
+                            xt = self.tag(parts[0].value)
+                            if xt.kind == "sorted":
+                                return Tag("sorted", xt.base + "+sentinel", xt.key, xt.col)
                     pts = [self.tag(x) for x in parts]
                     real = [t for t in pts if t.kind in ("rows", "sorted", "grouped", "top")]
                     if len(real) == 1 and real[0].kind in ("rows", "sorted") and len(pts) > 1:
